@@ -33,8 +33,7 @@ META = {
             'length-field perturbations (vm_compute), and runs the round-trip/strictness oracle on the implementation.',
     'note': 'Trusted: Coq kernel + vm_compute; that the hand-written format terms / primitive models describe the '
             'classes is correspondence-checked (not proved) on the generated cases; X.509 DER content, compression, '
-            'SSLv2 forms, RecordHeader2 and delegated credentials are not modelled (round-trip oracle only or excluded). '
-            'Known finding F15: SRPExtension / TACKExtension accept trailing bytes inside the extension.',
+            'SSLv2 forms, RecordHeader2 and delegated credentials are not modelled (round-trip oracle only or excluded).',
     'technique': 'Rocq/Coq proof (generic over a format DSL) + vm_compute correspondence + direct round-trip oracle',
 }
 EXC = {'IndexError': 1, 'ValueError': 2, 'AssertionError': 3, 'AttributeError': 4, 'TypeError': 5,
